@@ -1224,6 +1224,26 @@ func ruleWireAssert(w *World, r *RuleResult) {
 		}
 	}
 	r.check(called, "assertions/called", w.Pos(eas.Pos()), "every comment line is offered to the assertion evaluator", "evaluateAssertions never evaluates an assertion")
+	// every assertion is evaluated: the driver leaves its loop after an evaluation only with that evaluation's error
+	for _, p := range ps2 {
+		if p.End != "ret" || len(p.Ret) != 1 {
+			continue
+		}
+		var res *T
+		var at *Event
+		for i := range p.Events {
+			if e := &p.Events[i]; e.Kind == "call" && e.Callee == ea {
+				res, at = e.Res, e
+			}
+		}
+		if res == nil {
+			continue
+		}
+		nonNil := hasCond(p, func(a *T, v bool) bool {
+			return a.Op == "eq" && !v && a.A[1].Op == "nil" && a.A[0].Key() == res.Key()
+		})
+		r.check(nonNil && p.Ret[0].Op != "nil", "assertions/all", w.Pos(instrPosE(at)), "the driver returns right after an evaluation only when it failed; otherwise it goes on to the next assertion", "the assertion driver returns after evaluating an assertion without knowing that it failed: later ;assert lines are never evaluated (a program whose second assertion is zero is accepted)")
+	}
 	// compile: every successful return evaluated the assertions and found nil
 	ps3, _ := w.Paths(comp)
 	for _, p := range ps3 {
